@@ -5,6 +5,10 @@
 (* aliases and in classes built by successive Unify calls - and            *)
 (* UnifyRecordField, in every interleaving of at most MaxOps operations.   *)
 (* A history ends at MaxOps operations or at the first clash.              *)
+(* With InitName = "atoms" the references start as Any / Singular /        *)
+(* Sequential / ground scalars and every history of Unify calls (directly  *)
+(* or through containers that hold the references as a field / element) is *)
+(* exported: a later clash must reach every reference of the class.        *)
 (* TLC checks the store model against the meaning (CloseSemantics,         *)
 (* ClosedRejectsNewField, AliasesAgree) and, with Export = TRUE, prints    *)
 (* every complete history that contains a CloseRecord; the harness replays *)
@@ -13,7 +17,7 @@
 (***************************************************************************)
 EXTENDS TypeAlgebra, Json
 
-CONSTANTS NRefs, InitName, FieldOpsName, MaxOps, Export
+CONSTANTS NRefs, InitName, FieldOpsName, ShapeSet, MaxOps, Export
 
 AnyT == Atom("Any")
 OpenRec(fs) == Rec("open", fs)
@@ -24,17 +28,22 @@ Inits ==
                               Rec("closed", <<<<"a", NumT>>>>)}
     [] InitName = "three" -> {AnyT, OpenRec(<<>>), OpenRec(<<<<"a", AnyT>>>>)}
     [] InitName = "two"   -> {AnyT, OpenRec(<<<<"a", AnyT>>>>)}
+    \* abstract references meeting ground scalars (union-find linking)
+    [] InitName = "atoms" -> {AnyT, Atom("Singular"), Atom("Sequential"), NumT, StrT}
+    [] InitName = "atoms3" -> {AnyT, NumT, StrT}
 
 FieldOps ==
   CASE FieldOpsName = "three" -> {<<"a", NumT>>, <<"a", StrT>>, <<"b", NumT>>}
     [] FieldOpsName = "two"   -> {<<"a", StrT>>, <<"b", NumT>>}
+    [] FieldOpsName = "none"  -> {}
 
 G == Ground({"Num", "Str"}, {"a", "b"}, {"c"}, TRUE, 1)
 
-VARIABLES init, ops, st
-vars == <<init, ops, st>>
+VARIABLES init, shape, ops, st
+vars == <<init, shape, ops, st>>
 
 Init == /\ init \in [1..NRefs -> Inits]
+        /\ shape \in ShapeSet
         /\ ops = <<>>
         /\ st = StoreInit(init)
 
@@ -46,15 +55,17 @@ Do(op) ==
   /\ OpEnabled(st, op)
   /\ ops' = Append(ops, op)
   /\ st' = StoreApply(st, op)
-  /\ init' = init
-  /\ (Export /\ Complete(ops', st') /\ HasClose(ops')) =>
+  /\ init' = init /\ shape' = shape
+  /\ (Export /\ Complete(ops', st') /\ (HasClose(ops') \/ FieldOpsName = "none")) =>
        PrintT(<<"SEQ", ToJson([init |-> [k \in 1..NRefs |-> init[k]],
-                                ops |-> ops'])>>)
+                                shape |-> shape, ops |-> ops'])>>)
 
 DoUnify == \E i, j \in 1..NRefs : Do(<<"unify", i, j>>)
+\* the same constraint placed through the containers {a: ri, ...} / [ri]
+DoUnifyC == shape # "plain" /\ \E i, j \in 1..NRefs : Do(<<"unifyc", i, j>>)
 DoClose == \E i \in 1..NRefs : Do(<<"close", i>>)
 DoField == \E i \in 1..NRefs : \E fo \in FieldOps : Do(<<"field", i, fo[1], fo[2]>>)
-Next == DoUnify \/ DoClose \/ DoField
+Next == DoUnify \/ DoUnifyC \/ DoClose \/ DoField
 Spec == Init /\ [][Next]_vars
 
 \* The model is consistent: references of one class denote one value.
